@@ -55,8 +55,10 @@ fn main() {
         "C08" => props::c08::run(tier),
         "C09" => props::c09::run(tier),
         "C11" => props::c11::run(tier),
+        "C12" => props::c12::run(tier),
         "C13" => props::c13::run(tier),
         "C15" => props::c15::run(tier),
+        "C17" => props::c17::run(tier),
         other => {
             eprintln!("unknown check {other}");
             std::process::exit(2);
